@@ -27,6 +27,21 @@ CHECKS = {
             "Same element table as C03. Oracle 1: a monitor on the source endpoint checks valid(t)&~ready(t) => valid(t+1) and identical payload/param/first/last. Oracle 2: after the generated prefix the producer gets an endless token supply and the consumer is always ready; every window of B cycles (B from depth/ratio/latency) must contain a handshake on sink or source. Thorough adds the hold rule under all schedules of length 8 for 16 configurations. Bounded liveness from reached states only - a deadlock state no generated prefix reaches is not found.",
             "Trusted: Migen's simulator, harness agents/monitors. Control inputs (sel/enable) held constant. Progress bound B is generous (healthy elements show a handshake every cycle).",
             "DESIGN.md section 4 / C04"),
+    "C07": ("exploration",
+            "property-based testing (Hypothesis): reference flat byte memory + protocol monitors over generated read/write/burst histories, geometries and slave ack schedules",
+            "Each case builds a fresh adapter (down/up/auto converter, write-back cache incl. wider/narrower slave and reverse, remapper, CSR bridge, SRAM classic and B4 bursts, four chains) in front of a hardware memory slave whose ack is schedule driven (0-latency capable), runs a generated history of 5..60 operations (partial/empty selects, gaps, held cyc, colliding cache sets, wrap/incrementing/constant bursts with master wait states) and compares every read on its selected lanes, plus a final read-back of the whole window, with a flat byte memory; exactly-one-termination, slave-side request stability, remapped addresses against the documented formula and CSR-side strobes are checked as well.",
+            "Trusted: Migen's simulator, harness master/slave/monitor, the byte-memory model. Known findings excluded by construction and replayed: cache cold tag-0 hit, SRAM wrap burst longer than its wrap length. CSR bridge driven with full or empty selects only.",
+            "DESIGN.md section 4 / C07"),
+    "C17": ("exploration",
+            "exhaustive table extraction by simulation + plain-Python invariants over all symbols/pairs; property-based testing (Hypothesis) of the multi-word and stream wrappers against the extracted table model",
+            "The (running disparity, symbol) -> (code, disparity') table of the real SingleEncoder and the code -> (d, k, invalid) table of the real Decoder are extracted by simulation for all 268 symbols x 2 disparities and all 1024 code words, msb- and lsb-first, and checked exhaustively: round trip with control flag, disparity rule (hence |RD| <= 1), invalid flag for impossible ones-counts, run length <= 5 and comma freedom over ALL ordered symbol pairs from both disparities (a <=10-bit window never spans three symbols). Generated part: Encoder(nwords 1..4) under ce schedules and StreamEncoder/StreamDecoder under valid/ready schedules must follow the table model chained through the disparity and satisfy the hold rule.",
+            "Trusted: Migen's simulator, the list of 12 control symbols, serial bit order 'a' first.",
+            "DESIGN.md section 4 / C17"),
+    "C18": ("fault_enumeration",
+            "exhaustive enumeration of data words x 0/1/2-bit flip patterns through the real encoder/decoder (small k), generated words and flip pairs with a linearity cross-check (large k)",
+            "Real ECCEncoder -> XOR flip mask -> real ECCDecoder in the simulator, one settle per vector. k = 1..8 (thorough 1..12): every data word x every single and double flip position incl. the overall parity bit, plus the disabled pass-through. k in 9..128 (quick: 15 widths around the check-bit boundaries; thorough: all): zero/all-ones/generated words x all single flips x generated double flips (always incl. parity-bit and adjacent pairs), and a check that flags/correction depend on the flip pattern only and that the encoder is linear, which justifies reading sampled words as representative.",
+            "Trusted: Migen's simulator; textbook Hamming layout for the disabled pass-through oracle. Flags while disabled are unspecified and not asserted.",
+            "DESIGN.md section 4 / C18"),
 }
 
 NOT_YET = {}
